@@ -95,6 +95,15 @@ type c03Cfg struct {
 	layout  string // TextLayout | JSONLayout
 	sink    string // console | file | rolling | fanout | builtin
 	threads [][]c03Event
+	zone    *time.Location // the process's local zone (default UTC)
+	maxAge  string         // retention of the rolling appender in hours (default 24)
+}
+
+func (c c03Cfg) start() time.Time {
+	if c.zone != nil {
+		return fixedT.In(c.zone)
+	}
+	return time.Time{}
 }
 
 func (c c03Cfg) config() map[string]string {
@@ -120,6 +129,9 @@ func (c c03Cfg) config() map[string]string {
 		m["appender.out.fileName"] = "app.log"
 		m["appender.out.rotation"] = "h"
 		m["appender.out.maxAge"] = "24"
+		if c.maxAge != "" {
+			m["appender.out.maxAge"] = c.maxAge
+		}
 		m["appender.out.layout.type"] = c.layout
 		m["logger.root.type"] = "Logger"
 		m["logger.root.appenderRef.ref"] = "out"
